@@ -104,6 +104,14 @@ type c19VarAcc struct {
 	v, fn, kind, place string
 }
 
+// c19FieldCall: a method call whose receiver is a struct field (`x.f.m(…)`): the method may mutate the shared field
+type c19FieldCall struct {
+	fn, call string
+	held     []string
+}
+
+var c19RegionFieldCalls []c19FieldCall
+
 // c19Region computes the parallel region of entry function `entry` (bare name) of package pkg.
 func c19Region(pkg, entry string, callers ...string) (funcs []string, writes []c19Write, capt []c19VarAcc) {
 	decls := c19PkgDecls(pkg)
@@ -279,6 +287,14 @@ func c19Region(pkg, entry string, callers ...string) (funcs []string, writes []c
 					}
 				}
 			case *ast.CallExpr:
+				if sel, ok := x.Fun.(*ast.SelectorExpr); ok && x.Pos() >= from {
+					if inner, ok := sel.X.(*ast.SelectorExpr); ok {
+						if _, isPkg := inner.X.(*ast.Ident); !isPkg || inner.X.(*ast.Ident).Obj != nil {
+							c19RegionFieldCalls = append(c19RegionFieldCalls, c19FieldCall{fn: pkg + "." + d.name,
+								call: strings.Join(strings.Fields(src(sel)), " "), held: c19HeldAt(fd.Body, x.Pos())})
+						}
+					}
+				}
 				switch f := x.Fun.(type) {
 				case *ast.Ident:
 					if (f.Name == "delete" || f.Name == "clear" || f.Name == "copy") && len(x.Args) > 0 {
@@ -363,6 +379,7 @@ func init() {
 		var b strings.Builder
 		b.WriteString(header + "namespace CV.Gen\n\n")
 		emit := func(prefix, what, pkg, entry string, callers ...string) {
+			c19RegionFieldCalls = nil
 			funcs, writes, capt := c19Region(pkg, entry, callers...)
 			fmt.Fprintf(&b, "/-- %s: the functions of the parallel region (entry from its first spawn statement + everything reachable by name inside the package) -/\n", what)
 			fmt.Fprintf(&b, "def %sParallelFuncs : List String := [\n", prefix)
@@ -389,6 +406,15 @@ func init() {
 					b.WriteString(",\n")
 				}
 				fmt.Fprintf(&b, "  (%s, %s, %s, %s)", leanStr(a.v), leanStr(a.fn), leanStr(a.kind), leanStr(a.place))
+			}
+			b.WriteString("]\n\n")
+			fmt.Fprintf(&b, "/-- %s: every method call of the parallel region whose receiver is a struct field (`x.f.m(…)`; the method may mutate the field): (function, call, mutexes held) -/\n", what)
+			fmt.Fprintf(&b, "def %sParallelFieldMethodCalls : List (String × String × List String) := [\n", prefix)
+			for i, c := range c19RegionFieldCalls {
+				if i > 0 {
+					b.WriteString(",\n")
+				}
+				fmt.Fprintf(&b, "  (%s, %s, [%s])", leanStr(c.fn), leanStr(c.call), joinLean(c.held))
 			}
 			b.WriteString("]\n\n")
 			fmt.Fprintf(logw, "parallel region %s.%s: %d functions, %d stores, %d captured-variable occurrences\n", pkg, entry, len(funcs), len(writes), len(capt))
